@@ -3984,11 +3984,29 @@ class SFTPClient:
                 if not await dstfs.isdir(dstpath):
                     await dstfs.mkdir(dstpath)
 
+                filenames: Set[bytes] = set()
+
                 async for srcname in srcfs.scandir(srcpath):
                     filename = cast(bytes, srcname.filename)
 
                     if filename in (b'.', b'..'):
                         continue
+
+                    # Names returned by the source must be a single path
+                    # component which is only listed once, or they could
+                    # escape the destination (directly, or through a link
+                    # created for an earlier entry of the same name)
+                    if not filename or b'/' in filename or \
+                            filename in filenames or \
+                            (sys.platform == 'win32' and
+                             (b'\\' in filename or b':' in filename)):
+                        exc = SFTPBadMessage('Invalid filename: ' +
+                            filename.decode('utf-8', 'backslashreplace'))
+                        setattr(exc, 'srcpath', srcpath)
+                        setattr(exc, 'dstpath', dstpath)
+                        raise exc
+
+                    filenames.add(filename)
 
                     srcfile = posixpath.join(srcpath, filename)
                     dstfile = posixpath.join(dstpath, filename)
@@ -4077,8 +4095,20 @@ class SFTPClient:
             glob = SFTPGlob(srcfs, len(srcpaths) > 1)
 
             for srcpath in srcpaths:
-                srcnames.extend(await glob.match(srcfs.encode(srcpath),
-                                                 error_handler, self.version))
+                matches = await glob.match(srcfs.encode(srcpath),
+                                           error_handler, self.version)
+
+                # A pattern can't match the same name twice. Don't let a
+                # later match be written through a link which was created
+                # for an earlier match of that name.
+                matchnames = [cast(bytes, match.filename) for match in matches]
+
+                if len(set(matchnames)) != len(matchnames):
+                    raise SFTPBadMessage('Duplicate filename in matches for ' +
+                        srcfs.encode(srcpath).decode('utf-8',
+                                                     'backslashreplace'))
+
+                srcnames.extend(matches)
         else:
             for srcpath in srcpaths:
                 srcpath = srcfs.encode(srcpath)
